@@ -1,6 +1,7 @@
 (* driver.ml (C06) — line protocol for the trie/state oracle; parsing and printing only.
    Trie line :  T | u<hexkey>=<val>~<meta> | u<hexkey>=  (delete) | g<hexkey> ...
-     answer  :  one token per g (val~meta or -), then "| L key=val~meta ..." and "| P path ..." of the final trie
+     answer  :  one token per g (val~meta or -), then per handle "| L key=val~meta ..." and "| P path ..." of its final trie
+                ("h<i>" selects a handle, "f" forks the selected handle)
    State line:  S rate bt stop | A a:hk ... | K k:hs:trim ... | P a.k ... | op ; op ; ...
      ops     :  bal a v / eng a v bt / mas a m / code a c h / sto a k t / raw a k r / del a / cp / rev n /
                 commit major minor reopen / open i / obs
@@ -33,20 +34,25 @@ let split1 c s = match String.index_opt s c with
 let show_vm (v, m) = v ^ "~" ^ m
 
 let trie_line toks =
-  let t = ref Nil and out = ref [] in
+  (* several handles; "h<i>" selects one, "f" forks the selected one into a new handle (a copy of the value) *)
+  let hs = ref [| Nil |] and cur = ref 0 and out = ref [] in
   List.iter (fun tok ->
     let body = String.sub tok 1 (String.length tok - 1) in
     match tok.[0] with
     | 'u' ->
       let (k, vm) = split1 '=' body in
       let v = if vm = "" then None else Some (split1 '~' vm) in
-      t := trie_update (fun a b -> a = b) !t (hexkey_of_string k) v
+      !hs.(!cur) <- trie_update (fun a b -> a = b) !hs.(!cur) (hexkey_of_string k) v
     | 'g' ->
-      out := (match trie_get !t (hexkey_of_string body) with Some vm -> show_vm vm | None -> "-") :: !out
+      out := (match trie_get !hs.(!cur) (hexkey_of_string body) with Some vm -> show_vm vm | None -> "-") :: !out
+    | 'h' -> cur := int_of_string body
+    | 'f' -> hs := Array.append !hs [| !hs.(!cur) |]
     | _ -> failwith "bad trie op") toks;
-  let ls = List.map (fun (k, vm) -> string_of_path k ^ "=" ^ show_vm vm) (leaves !t) in
-  let ps = List.map (fun (p, l) -> "/" ^ string_of_path p ^ (match l with Some _ -> "L" | None -> "")) (walk !t []) in
-  String.concat " " (List.rev !out @ ["|"; "L"] @ ls @ ["|"; "P"] @ ps)
+  let show t =
+    let ls = List.map (fun (k, vm) -> string_of_path k ^ "=" ^ show_vm vm) (leaves t) in
+    let ps = List.map (fun (p, l) -> "/" ^ string_of_path p ^ (match l with Some _ -> "L" | None -> "")) (walk t []) in
+    ["|"; "L"] @ ls @ ["|"; "P"] @ ps in
+  String.concat " " (List.rev !out @ List.concat (List.map show (Array.to_list !hs)))
 
 (* ---------------- state ---------------- *)
 let show_meta = function
